@@ -68,7 +68,17 @@ var (
 		"Mkdir", "MkdirAll", "WriteFile", "OpenFile", "Remove", "RemoveAll", "Truncate", "Chmod",
 		"Stat", "Lstat", "ReadDir", "ReadFile", "Chdir",
 	}
-	pairOps   = []string{"Rename", "Link"}
+	pairOps = []string{"Rename", "Link"}
+	// newOps are the calls of the API that make a new entry and are not among
+	// pathOps; they are issued on the operands actorSpec.fresh (Symlink, Create)
+	// and actorSpec.tmp (CreateTemp, MkdirTemp). Their path operand is A like
+	// that of every pathOp; the second argument (the target of Symlink, the
+	// pattern of CreateTemp / MkdirTemp), which is no path of the namespace, is
+	// carried in Data (callString prints the call in the order of the API).
+	newOps    = []string{"Symlink", "Create"}
+	tmpOps    = []string{"CreateTemp", "MkdirTemp"}
+	isTmpOp   = map[string]bool{"CreateTemp": true, "MkdirTemp": true}
+	isNewOp   = map[string]bool{"Symlink": true, "Create": true, "CreateTemp": true, "MkdirTemp": true}
 	readOnly  = map[string]bool{"Stat": true, "Lstat": true, "ReadDir": true, "ReadFile": true}
 	isSetter  = map[string]bool{"SetUser": true, "SetUMask": true, "Chdir": true}
 	isPairOp  = map[string]bool{"Rename": true, "Link": true}
@@ -106,6 +116,60 @@ func exec1(v avfs.VFS, c fsx.Call, users map[string]avfs.UserReader) result {
 		}
 
 		return errResult(err)
+	case "Symlink":
+		// A: the new name, Data: the target, written as it is (no path of the call)
+		err := v.Symlink(c.Data, c.A)
+		r := errResult(err)
+
+		if e, ok := err.(*os.LinkError); ok {
+			// only New is a path of the namespace; Old must come back as it was given
+			r.EPaths = []string{e.New}
+			r.Val = "old=" + e.Old
+		}
+
+		return r
+	case "Create":
+		f, err := v.Create(c.A)
+		if err == nil {
+			_ = f.Close()
+		}
+
+		return errResult(err)
+	case "CreateTemp", "MkdirTemp":
+		// A: the directory, Data: the pattern. The name is random: the entry is
+		// removed again at once through the same actor, so that trees and state
+		// keys stay deterministic; the name the call returned is compared with
+		// its digits masked, as a path of the actor's namespace (EPaths).
+		var (
+			name string
+			err  error
+		)
+
+		if c.Op == "MkdirTemp" {
+			name, err = v.MkdirTemp(c.A, c.Data)
+		} else {
+			var f avfs.File
+
+			f, err = v.CreateTemp(c.A, c.Data)
+			if err == nil {
+				name = f.Name()
+				_ = f.Close()
+			}
+		}
+
+		r := errResult(err)
+		if err == nil {
+			r.EPaths = []string{name}
+			if cerr := v.Remove(name); cerr != nil {
+				r.Val = "cleanup=" + fsx.ErrKind(cerr)
+			}
+		}
+
+		for i, p := range r.EPaths {
+			r.EPaths[i] = reNum.ReplaceAllString(p, "N")
+		}
+
+		return r
 	case "Remove":
 		return errResult(v.Remove(c.A))
 	case "RemoveAll":
@@ -184,6 +248,19 @@ var (
 	reArgs = regexp.MustCompile(`\((0x|\{0x|\.\.\.).*$`)
 )
 
+// callString prints a call; the calls whose second argument travels in Data
+// (newOps, tmpOps) are printed in the order of the API.
+func callString(c fsx.Call) string {
+	switch {
+	case c.Op == "Symlink":
+		return fmt.Sprintf("Symlink(%q,%q)", c.Data, c.A)
+	case isTmpOp[c.Op]:
+		return fmt.Sprintf("%s(%q,%q)+Remove", c.Op, c.A, c.Data)
+	}
+
+	return c.String()
+}
+
 // panicClass removes pointer values and numbers from a panic message.
 func panicClass(msg string) string {
 	msg = reArgs.ReplaceAllString(msg, "")
@@ -222,6 +299,22 @@ type actorSpec struct {
 	recv string   // name of the actor Sub is called on
 	sub  []string // spellings of the directory
 
+	// Every call that makes a new entry, not only the common ones.
+	//
+	// General lesson: a rule such as "a removed directory accepts no new entry",
+	// "search permission on the way", "the view's root is an ordinary directory"
+	// is implemented once PER creating call (each locks the directory of the new
+	// name and tests it by itself), so it can be right in Mkdir and OpenFile and
+	// wrong in the one call nobody tried: Symlink, Link, Rename (destination),
+	// Create, CreateTemp, MkdirTemp, WriteFile, OpenFile(O_CREATE), Mkdir,
+	// MkdirAll ALL belong to the alphabet of an actor, on new names in its root
+	// and below it. (The statement keeps PATHS that resolve through a symbolic
+	// link out of the comparison with the parent, not the CALL Symlink: the link
+	// is made with a plain relative name as target on a name that is no operand
+	// of any other call, and nothing is read through it.)
+	fresh []string // names that do not exist: operands of newOps (Symlink, Create)
+	tmp   []string // directories: operands of tmpOps (CreateTemp, MkdirTemp)
+
 	// Directories (in the actor's namespace) that are the root of a view: Chmod
 	// is issued on them with every mode of rootModes as well.
 	//
@@ -253,6 +346,10 @@ type actorSpec struct {
 // a view whose root directory was removed" afterwards.
 const freshDir = "/p/e"
 
+// symlinkTarget is what the links made by Symlink point to: a plain relative
+// name, written into the link as it is by the view and by the parent alike.
+const symlinkTarget = "g"
+
 // rootModes: one of x, w, r missing for group and others (the view roots of
 // the start state belong to the administrator: the non-admin users are
 // "others" there); the plain Chmod of the alphabet (0700) removes all three.
@@ -275,7 +372,7 @@ func actorSpecs(tier string, core, win bool) []actorSpec {
 
 func linuxSpecs(tier string, core bool) []actorSpec {
 	if core {
-		ops := []string{"Mkdir", "WriteFile", "Remove", "RemoveAll", "Chmod", "Stat", "ReadDir", "ReadFile", "Chdir"}
+		ops := []string{"Mkdir", "WriteFile", "Remove", "RemoveAll", "Chmod", "Stat", "ReadDir", "ReadFile", "Chdir", "Symlink"}
 
 		return []actorSpec{
 			{
@@ -290,6 +387,7 @@ func linuxSpecs(tier string, core bool) []actorSpec {
 				src: []string{"/q/f", "/q"}, dst: []string{"/new", "/../new"},
 				users: []string{"u1", "root"}, umasks: []uint32{0o077},
 				recv: "parent", sub: []string{"/p", "."},
+				fresh: []string{"/sl"},
 			},
 			{
 				name: "V2", kind: "nested", dir: "/p/q", ops: ops,
@@ -298,6 +396,7 @@ func linuxSpecs(tier string, core bool) []actorSpec {
 				src: []string{"/f"}, dst: []string{"/new", "/../new"},
 				users: []string{"u2", "root"}, umasks: []uint32{0o027},
 				recv: "V1", sub: []string{"/q", "."},
+				fresh: []string{"/sl"},
 			},
 		}
 	}
@@ -316,6 +415,7 @@ func linuxSpecs(tier string, core bool) []actorSpec {
 			name: "parent", kind: "parent", dir: "/",
 			abs: parentAbs, rel: parentRel, src: append(append([]string{}, parentSrc...), freshDir), dst: parentDst,
 			rootDirs: []string{"/p", "/p/q"}, // (the modes of freshDir are set through V3)
+			fresh:    []string{"/p/sl", "/p/q/sl", freshDir + "/sl"},
 		},
 		{
 			name: "V1", kind: "view", dir: "/p", users: users, umasks: umasks,
@@ -324,6 +424,7 @@ func linuxSpecs(tier string, core bool) []actorSpec {
 			src:  []string{"/q", "/q/f", "/g", "/", "/../o/h", "f"},
 			dst:  []string{"/new", "/q/new", "/../new", "/../o/new", "/g", "/q", "new"},
 			recv: "parent", sub: []string{"/p", "/p/.", "/p/q/..", "p", ".", ".."}, rootDirs: []string{"/"},
+			fresh: []string{"/sl", "/q/sl"}, tmp: []string{"/", "/q"},
 		},
 		{
 			name: "V2", kind: "nested", dir: "/p/q", users: users, umasks: umasks,
@@ -332,6 +433,7 @@ func linuxSpecs(tier string, core bool) []actorSpec {
 			src:  []string{"/f", "/", "/../g", "/../../o/h", "f"},
 			dst:  []string{"/new", "/../new", "/../../o/new", "/f", "new"},
 			recv: "V1", sub: []string{"/q", "/q/.", "q", ".", ".."}, rootDirs: []string{"/"},
+			fresh: []string{"/sl", "sl"}, tmp: []string{"/", "."},
 		},
 	}
 
@@ -342,18 +444,20 @@ func linuxSpecs(tier string, core bool) []actorSpec {
 			abs: rootAbs,
 			rel: parentRel, src: parentSrc, dst: parentDst,
 			recv: "parent", sub: []string{"/", "/p/..", ".", ".."},
+			fresh: []string{"/sl", "/p/sl"}, tmp: []string{"/", "/p"},
 		})
 	}
 
 	// the view of a directory that never had an entry (freshDir)
 	specs = append(specs, actorSpec{
 		name: "V3", kind: "view", dir: freshDir,
-		ops: []string{"Mkdir", "MkdirAll", "WriteFile", "OpenFile", "Remove", "RemoveAll", "Stat", "ReadDir", "Chdir"},
+		ops: []string{"Mkdir", "MkdirAll", "WriteFile", "OpenFile", "Remove", "RemoveAll", "Stat", "ReadDir", "Chdir", "Symlink", "Create", "CreateTemp", "MkdirTemp"},
 		abs: []string{"/", "/new", "/new/sub"},
 		rel: []string{"new"},
 		src: []string{"/new"}, dst: []string{"/new2", "/../new"},
 		users: []string{"u1", "root"}, umasks: []uint32{0o077},
 		recv: "parent", sub: []string{freshDir, path.Base(freshDir)}, rootDirs: []string{"/"},
+		fresh: []string{"/sl"}, tmp: []string{"/"},
 	})
 
 	return specs
@@ -372,6 +476,10 @@ func buildOps(specs []actorSpec) []op {
 
 		for _, p := range append(append([]string{}, sp.abs...), sp.rel...) {
 			for _, o := range single {
+				if isNewOp[o] {
+					continue // on the operands fresh / tmp, below
+				}
+
 				if o == "Chdir" && sp.kind == "parent" && hasVolume(p) && !strings.HasPrefix(p, winVolume) {
 					// the parent's working directory stays on the default volume
 					// (Windows-typed systems: a view is never rooted on another one)
@@ -394,6 +502,46 @@ func buildOps(specs []actorSpec) []op {
 				}
 
 				add(c)
+			}
+		}
+
+		// (an actor with a call list of its own makes the ones it lists)
+		listed := func(o string) bool {
+			if sp.ops == nil {
+				return true
+			}
+
+			for _, l := range sp.ops {
+				if l == o {
+					return true
+				}
+			}
+
+			return false
+		}
+
+		for _, p := range sp.fresh {
+			for _, o := range newOps {
+				if !listed(o) {
+					continue
+				}
+
+				c := fsx.Call{Op: o, A: p}
+				if o == "Symlink" {
+					c.Data = symlinkTarget
+				}
+
+				add(c)
+			}
+		}
+
+		for _, p := range sp.tmp {
+			for _, o := range tmpOps {
+				if !listed(o) {
+					continue
+				}
+
+				add(fsx.Call{Op: o, A: p, Data: "t*"})
 			}
 		}
 
